@@ -1,5 +1,5 @@
 SPECIFICATION Spec
-CONSTANTS Mode = "ska"  MaxT = 8  Timeout = 16000  MaxFail = 2
+CONSTANTS Mode = "ska"  MaxT = 7  Timeout = 16000  MaxFail = 2  Rich = TRUE
 INVARIANTS AgreeBothWays AcceptedTrue
 VIEW View
 CHECK_DEADLOCK FALSE
